@@ -54,9 +54,26 @@ def evaluate(ctx: Ctx, inst: dict, rng: random.Random) -> None:
     def bad(sig, what):
         ctx.violation(sig, what, rep)
 
+    # every other instance hands its points and vectors over as float arrays of the caller's, which the caller goes on using
+    # for something else once the link / clamp / curve is made (a reused work buffer, the position of a vertex that moves):
+    # what was declared is what held when the object was created
+    handed: list = []
+    as_arrays = rng.random() < 0.5
+
+    def own(value):
+        if not as_arrays:
+            return value
+        arr = np.array(value, dtype=float)
+        handed.append(arr)
+        return arr
+
     def guarded(name, fn):
         try:
-            return fn()
+            made = fn()
+            for arr in handed:
+                arr += 13.7 * size
+            handed.clear()
+            return made
         except Exception as err:  # pylint: disable=broad-except
             bad(f"raises:{name}:{type(err).__name__}", f"{name} raised {type(err).__name__}: {err}")
             return None
@@ -85,13 +102,13 @@ def evaluate(ctx: Ctx, inst: dict, rng: random.Random) -> None:
                 if vdist(link.leader, assigned) > 1e-12 * max(1.0, vnorm(assigned)):
                     bad(f"{name}:leader-altered{tag}{again}", f"update() moved the leader by {vdist(link.leader, assigned) / size:.3g} sizes")
 
-    link_case("TranslationLink", lambda: cb.TranslationLink(P["l0"], P["f0"]),
+    link_case("TranslationLink", lambda: cb.TranslationLink(own(P["l0"]), own(P["f0"])),
               [(P["ltrans"], P["ftrans"]), (P["ltrans2"], P["ftrans2"]), (P["l0"], P["f0"])])
     axis = vmul(w, rng.uniform(0.4, 3.0))
-    link_case("RotationLink", lambda: cb.RotationLink(P["l0"], P["f0"], axis, P["origin"]),
+    link_case("RotationLink", lambda: cb.RotationLink(own(P["l0"]), own(P["f0"]), own(axis), own(P["origin"])),
               [(P["lrot"], P["frot"]), (P["lrot2"], P["frot2"]), (P["l0"], P["f0"])])
     normal = vmul(u, rng.uniform(0.4, 3.0))
-    link_case("SymmetryLink", lambda: cb.SymmetryLink(P["l0"], P["f0"], normal, P["origin"]),
+    link_case("SymmetryLink", lambda: cb.SymmetryLink(own(P["l0"]), own(P["f0"]), own(normal), own(P["origin"])),
               [(P["lrot"], P["fsym"]), (P["lrot2"], P["fsym2"])])
 
     # ------------------------------------------------------------------ clamps
@@ -102,7 +119,7 @@ def evaluate(ctx: Ctx, inst: dict, rng: random.Random) -> None:
         return vnorm(vcross(vsub(p, P["origin"]), uu))
 
     p1, p2 = vadd(P["origin"], vmul(u, -3 * scale)), vadd(P["origin"], vmul(u, 4 * scale))
-    clamp = guarded("LineClamp", lambda: cb.LineClamp(P["l0"], p1, p2))
+    clamp = guarded("LineClamp", lambda: cb.LineClamp(own(P["l0"]), own(p1), own(p2)))
     ctx.evaluated(f"LineClamp:{inst['l0']}")
     if clamp is not None:
         if vdist(clamp.position, P["foot_line"]) > 100 * tol:
@@ -113,7 +130,7 @@ def evaluate(ctx: Ctx, inst: dict, rng: random.Random) -> None:
             clamp.update_params([t])
             if line_dist(clamp.position) > tol or abs(vdist(clamp.position, p1) - t) > tol:
                 bad("LineClamp:off-line", f"position for parameter {t} leaves the line or is not at distance t from its first point")
-    clamp = guarded("PlaneClamp", lambda: cb.PlaneClamp(P["l0"], P["origin"], vmul(w, rng.uniform(0.4, 3.0))))
+    clamp = guarded("PlaneClamp", lambda: cb.PlaneClamp(own(P["l0"]), own(P["origin"]), own(vmul(w, rng.uniform(0.4, 3.0)))))
     ctx.evaluated(f"PlaneClamp:{inst['l0']}")
     if clamp is not None:
         if vdist(clamp.position, P["foot_plane"]) > 100 * tol:
@@ -122,7 +139,7 @@ def evaluate(ctx: Ctx, inst: dict, rng: random.Random) -> None:
             clamp.update_params([rng.uniform(-5, 5) * size, rng.uniform(-5, 5) * size])
             if abs(vdot(vsub(clamp.position, P["origin"]), ww)) > tol:
                 bad("PlaneClamp:off-plane", "position leaves the plane")
-    clamp = guarded("RadialClamp", lambda: cb.RadialClamp(P["l0"], P["origin"], vmul(w, rng.uniform(0.4, 3.0))))
+    clamp = guarded("RadialClamp", lambda: cb.RadialClamp(own(P["l0"]), own(P["origin"]), own(vmul(w, rng.uniform(0.4, 3.0)))))
     ctx.evaluated(f"RadialClamp:{inst['l0']}")
     if clamp is not None:
         r0 = math.sqrt(inst["radius2"]) * scale
@@ -138,10 +155,10 @@ def evaluate(ctx: Ctx, inst: dict, rng: random.Random) -> None:
                 bad("RadialClamp:off-circle", f"radius {r} / height {h} instead of {r0} / {h0}")
     # curve clamp on a circle through l0 about the axis; the position is given slightly off the curve
     clamp_pos = vadd(P["l0"], vmul(ww, 0.03 * size))
-    circ = guarded("CircleCurve", lambda: cb.CircleCurve(P["origin"] if inst["height"] == 0 else vadd(P["origin"], vmul(ww, inst["height"] / flen * scale)),
-                                                        P["l0"], vmul(w, 2.0), (-1.0, 1.0)))
+    circ = guarded("CircleCurve", lambda: cb.CircleCurve(own(P["origin"] if inst["height"] == 0 else vadd(P["origin"], vmul(ww, inst["height"] / flen * scale))),
+                                                        own(P["l0"]), own(vmul(w, 2.0)), (-1.0, 1.0)))
     if circ is not None:
-        clamp = guarded("CurveClamp", lambda: cb.CurveClamp(clamp_pos, circ))
+        clamp = guarded("CurveClamp", lambda: cb.CurveClamp(own(clamp_pos), circ))
         ctx.evaluated(f"CurveClamp:{inst['l0']}")
         if clamp is not None:
             if vdist(clamp.position, P["l0"]) > 1e-4 * size:
@@ -152,12 +169,12 @@ def evaluate(ctx: Ctx, inst: dict, rng: random.Random) -> None:
                 bad("CurveClamp:off-curve", "position is not the curve's point for the parameter")
         # a rough starting estimate is only where the search begins: the clamp still reports where it was created
         guess = rng.choice([-0.4, 0.3, 0.6])
-        clamp = guarded("CurveClamp", lambda: cb.CurveClamp(clamp_pos, circ, guess))
+        clamp = guarded("CurveClamp", lambda: cb.CurveClamp(own(clamp_pos), circ, guess))
         ctx.evaluated()
         if clamp is not None and vdist(clamp.position, P["l0"]) > 1e-3 * size:
             bad("CurveClamp:initial:with-estimate", f"created with a starting estimate, the clamp is {vdist(clamp.position, P['l0']) / size:.3g} sizes "
                 "from the closest point of the curve")
-    clamp = guarded("FreeClamp", lambda: cb.FreeClamp(P["f0"]))
+    clamp = guarded("FreeClamp", lambda: cb.FreeClamp(own(P["f0"])))
     if clamp is not None and vdist(clamp.position, P["f0"]) > 1e-9 * size:
         bad("FreeClamp:initial", "a free clamp does not report the position it was created at")
 
@@ -165,7 +182,7 @@ def evaluate(ctx: Ctx, inst: dict, rng: random.Random) -> None:
         return np.array(vadd(vadd(vadd(P["origin"], vmul(u, params[0])), vmul(v, params[1])), vmul(w, 0.2 * params[0] * params[1] / scale)))
     a0 = inst["a"]
     spos = surf([a0 * scale * 1.0, 0.5 * scale])
-    clamp = guarded("ParametricSurfaceClamp", lambda: cb.ParametricSurfaceClamp(spos, surf, [[-4 * scale, 4 * scale], [-4 * scale, 4 * scale]]))
+    clamp = guarded("ParametricSurfaceClamp", lambda: cb.ParametricSurfaceClamp(own(spos), surf, [[-4 * scale, 4 * scale], [-4 * scale, 4 * scale]]))
     ctx.evaluated()
     if clamp is not None:
         # two-parameter scipy minimisation from [0, 0] with tol 1e-7: accurate to about 1e-3 of the size
@@ -176,7 +193,7 @@ def evaluate(ctx: Ctx, inst: dict, rng: random.Random) -> None:
         if vdist(clamp.position, surf(prm)) > 1e-9 * size:
             bad("ParametricSurfaceClamp:off-surface", "position is not the surface point of its parameters")
     est = [(a0 + rng.choice([-0.4, 0.5])) * scale, (0.5 + rng.choice([-0.3, 0.4])) * scale]
-    clamp = guarded("ParametricSurfaceClamp", lambda: cb.ParametricSurfaceClamp(spos, surf, [[-4 * scale, 4 * scale], [-4 * scale, 4 * scale]], est))
+    clamp = guarded("ParametricSurfaceClamp", lambda: cb.ParametricSurfaceClamp(own(spos), surf, [[-4 * scale, 4 * scale], [-4 * scale, 4 * scale]], est))
     ctx.evaluated()
     if clamp is not None and vdist(clamp.position, spos) > 1e-2 * size:
         bad("ParametricSurfaceClamp:initial:with-estimate", f"created with a starting estimate, the clamp is {vdist(clamp.position, spos) / size:.3g} sizes "
